@@ -437,7 +437,25 @@ func configVariablesFlow(c *an.Ctx, rule string) {
 		overriding := strings.HasSuffix(name, "WithOverwrite")
 		args := ci.Common().Args
 		if len(args) > 2 {
-			for _, e := range an.VariadicElems(args[2]) {
+			elems := an.VariadicElems(args[2])
+			// options forwarded from the callers of merge (`opts ...func(*mergo.Config)`): what every caller passes
+			for _, src := range an.Sources(args[2]) {
+				prm, ok := src.(*ssa.Parameter)
+				if !ok || prm.Parent() != mg {
+					continue
+				}
+				idx := paramIndexOf(mg, prm)
+				for _, site := range p.CallSitesOf(mg) {
+					cc := site.Common()
+					if idx >= 0 && idx < len(cc.Args) {
+						elems = append(elems, an.VariadicElems(cc.Args[idx])...)
+					}
+				}
+			}
+			for _, e := range elems {
+				if e == nil {
+					continue
+				}
 				for _, src := range an.Sources(e) {
 					if oc, ok := src.(*ssa.Call); ok {
 						on := an.ShortCallee(&oc.Call)
@@ -499,10 +517,30 @@ func argsTail(p *an.Prog, v ssa.Value) (ok bool, why string, homes []*ssa.Functi
 		}
 		sl, isSl := src.(*ssa.Slice)
 		if !isSl {
+			// the cut may be made by a helper in another package of the module that is handed the words
+			if call, isCall := src.(*ssa.Call); isCall {
+				if callee := call.Call.StaticCallee(); callee != nil && an.InModule(callee) && callee.Blocks != nil && callee != call.Parent() {
+					sub := true
+					for _, ret := range an.Returns(callee) {
+						okR, whyR, homesR := argsTail(p, an.RetVal(ret, 0))
+						if !okR {
+							sub, why = false, whyR
+						}
+						homes = append(homes, homesR...)
+					}
+					if sub && len(an.Returns(callee)) > 0 {
+						n++
+						continue
+					}
+					return false, why, nil
+				}
+			}
 			return false, an.Prov(src), nil
 		}
 		isArgs := false
-		for _, s2 := range p.DeepSources(sl.X, 2, false) {
+		// (the words may reach the function that cuts them as a parameter: what its callers pass)
+		_, viaParam := an.Resolve(sl.X).(*ssa.Parameter)
+		for _, s2 := range p.DeepSources(sl.X, 3, viaParam) {
 			if call, ok := s2.(*ssa.Call); ok && strings.HasSuffix(an.ShortCallee(&call.Call), "cli/v2.Args).Slice") {
 				isArgs = true
 			}
